@@ -49,7 +49,7 @@ struct Violation {
 struct CaseStats {
   long paths = 0, forks = 0, branch_points = 0, q_sat = 0, q_unsat = 0, q_unknown = 0;
   long asserts = 0, nf_trivial = 0, solver_proved = 0, native_checks = 0;
-  long div0_assumed = 0, sqrtneg_assumed = 0;
+  long div0_assumed = 0, sqrtneg_assumed = 0, aux_unknown = 0;
   long faults = 0, abandoned = 0, exceptions = 0, symbolic_paths = 0, uninit_reads = 0;
   double solver_s = 0, wall_s = 0;
   size_t max_symbols = 0;
@@ -65,7 +65,11 @@ static const uint32_t POISON_HEAP = 0xA5A5A5A5u, POISON_STACK = 0xFEFEFEFEu;
 
 struct Engine {
   z3::context ctx;
-  std::unique_ptr<z3::solver> slv;
+  bool in_path = false;
+  struct Cons { z3::expr f; std::vector<Var> vars; };
+  std::vector<Cons> pc;                                  // path condition, sliced per query
+  std::unordered_map<Var, std::vector<int>> pc_idx;      // variable -> conjuncts mentioning it
+  std::unique_ptr<z3::model> model;                      // model of the last satisfiable query that asked for one
   std::vector<VarInfo> vars;
   std::vector<z3::expr> zvars;
   std::unordered_map<std::string, Var> var_by_key;
@@ -210,18 +214,55 @@ static z3::expr z_of(const Poly& p) {
   return z3::sum(sum);
 }
 
-static void solver_add(const z3::expr& c) { E().slv->add(c); }
+static void vars_of(const Poly& p, std::set<Var>& out) { for (auto& kv : p) for (Var v : kv.first) out.insert(v); }
 
-static z3::check_result solver_check() {
+static void pc_add(const z3::expr& f, std::initializer_list<const Poly*> polys) {
   Engine& e = E();
+  std::set<Var> vs; for (const Poly* p : polys) vars_of(*p, vs);
+  Engine::Cons c{f, std::vector<Var>(vs.begin(), vs.end())};
+  int idx = (int)e.pc.size();
+  e.pc.push_back(c);
+  for (Var v : c.vars) e.pc_idx[v].push_back(idx);
+}
+
+static void atom_defs(Var v, std::vector<z3::expr>& out);
+static mpq_class PI_Q() { static mpq_class pi(M_PI); return pi; }
+
+// Decide satisfiability of (relevant slice of the path condition) AND q.
+// Only conjuncts and atom definitions connected to the variables of q are sent to the solver
+// (constraint independence); `full` sends everything (used to obtain a complete model).
+static z3::check_result query(const z3::expr* q, const std::set<Var>& qvars, unsigned timeout_ms, bool want_model, bool full = false,
+                              std::string* smt_out = nullptr, bool isolated = false) {
+  Engine& e = E();
+  std::set<Var> vs; std::vector<Var> work(qvars.begin(), qvars.end());
+  std::vector<char> inc(e.pc.size(), 0);
+  if (full && !isolated) { for (size_t i = 0; i < e.pc.size(); i++) { inc[i] = 1; for (Var v : e.pc[i].vars) work.push_back(v); } }
+  while (!work.empty()) {
+    Var v = work.back(); work.pop_back();
+    if (!vs.insert(v).second) continue;
+    for (auto& a : e.vars[v].args) for (auto& kv : a) for (Var u : kv.first) if (!vs.count(u)) work.push_back(u);
+    if (e.vars[v].partner >= 0 && !vs.count((Var)e.vars[v].partner)) work.push_back((Var)e.vars[v].partner);
+    if (isolated) continue;
+    auto it = e.pc_idx.find(v);
+    if (it != e.pc_idx.end()) for (int ci : it->second) if (!inc[ci]) { inc[ci] = 1; for (Var u : e.pc[ci].vars) if (!vs.count(u)) work.push_back(u); }
+  }
+  z3::solver s(e.ctx);
+  { z3::params p(e.ctx); p.set("timeout", timeout_ms); s.set(p); }
+  std::vector<z3::expr> defs;
+  for (Var v : vs) atom_defs(v, defs);
+  for (auto& d : defs) s.add(d);
+  for (size_t i = 0; i < e.pc.size(); i++) if (inc[i]) s.add(e.pc[i].f);
+  if (q) s.add(*q);
+  if (smt_out) *smt_out = s.to_smt2();
   double t0 = now_s();
   z3::check_result r;
-  try { r = e.slv->check(); } catch (z3::exception& ex) { r = z3::unknown; }
+  try { r = s.check(); } catch (z3::exception& ex) { r = z3::unknown; }
   double dt = now_s() - t0;
   if (e.st) {
     e.st->solver_s += dt;
     if (r == z3::sat) e.st->q_sat++; else if (r == z3::unsat) e.st->q_unsat++; else e.st->q_unknown++;
   }
+  if (want_model) { e.model.reset(); if (r == z3::sat) { try { e.model.reset(new z3::model(s.get_model())); } catch (z3::exception&) {} } }
   return r;
 }
 
@@ -315,51 +356,36 @@ SymReal from_f64(double d) {
 // ---------------------------------------------------------------------------------------
 // atoms
 // ---------------------------------------------------------------------------------------
-static void activate(Var v);
-static mpq_class PI_Q() { static mpq_class pi(M_PI); return pi; }
-
-static void ensure_active_in(const Poly& p) {
-  for (auto& kv : p) for (Var v : kv.first) activate(v);
-}
-
-static void activate(Var v) {
+static void atom_defs(Var v, std::vector<z3::expr>& out) {
   Engine& e = E();
   VarInfo& vi = e.vars[v];
-  if (vi.active_gen == e.gen) return;
-  vi.active_gen = e.gen;
-  for (auto& a : vi.args) ensure_active_in(a);
-  if (vi.partner >= 0) { /* partner activated by its own creation */ }
   z3::expr z = e.zvars[v];
   switch (vi.kind) {
-    case V_SQRT:  solver_add(z >= 0); solver_add(z * z == z_of(vi.args[0])); break;
-    case V_ABS:   solver_add(z >= 0); solver_add(z == z_of(vi.args[0]) || z == -z_of(vi.args[0])); break;
-    case V_QUOT:  solver_add(z * z_of(vi.args[1]) == z_of(vi.args[0])); solver_add(z_of(vi.args[1]) != 0); break;
-    case V_MAX:   { z3::expr a = z_of(vi.args[0]), b = z_of(vi.args[1]); solver_add(z >= a && z >= b && (z == a || z == b)); } break;
-    case V_MIN:   { z3::expr a = z_of(vi.args[0]), b = z_of(vi.args[1]); solver_add(z <= a && z <= b && (z == a || z == b)); } break;
-    case V_SIN: case V_COS: {
-      Var pv = (Var)vi.partner; e.vars[pv].active_gen = e.gen;
-      z3::expr sn = e.zvars[vi.kind == V_SIN ? v : pv], cs = e.zvars[vi.kind == V_COS ? v : pv];
-      solver_add(sn * sn + cs * cs == 1);
-    } break;
+    case V_SQRT:  out.push_back(z >= 0); out.push_back(z * z == z_of(vi.args[0])); break;
+    case V_ABS:   out.push_back(z >= 0); out.push_back(z == z_of(vi.args[0]) || z == -z_of(vi.args[0])); break;
+    case V_QUOT:  out.push_back(z * z_of(vi.args[1]) == z_of(vi.args[0])); out.push_back(z_of(vi.args[1]) != 0); break;
+    case V_MAX:   { z3::expr a = z_of(vi.args[0]), b = z_of(vi.args[1]); out.push_back(z >= a && z >= b && (z == a || z == b)); } break;
+    case V_MIN:   { z3::expr a = z_of(vi.args[0]), b = z_of(vi.args[1]); out.push_back(z <= a && z <= b && (z == a || z == b)); } break;
+    case V_SIN: { z3::expr cs = e.zvars[vi.partner]; out.push_back(z * z + cs * cs == 1); } break;
+    case V_COS: break;     // stated once, with the sine
     case V_ANGLE: {
       z3::expr th = z, pi = e.ctx.real_val(PI_Q().get_str().c_str());
       z3::expr zy = z_of(vi.args[0]), zx = z_of(vi.args[1]);
-      solver_add(th > -pi && th <= pi);
-      solver_add(z3::implies(zy > 0, th > 0 && th < pi));
-      solver_add(z3::implies(zy < 0, th < 0));
-      solver_add(z3::implies(zy == 0 && zx > 0, th == 0));
-      solver_add(z3::implies(zy == 0 && zx < 0, th == pi));
-      solver_add(z3::implies(zx > 0, th > -pi / 2 && th < pi / 2));
-      solver_add(z3::implies(zx < 0, th > pi / 2 || th < -pi / 2));
-      solver_add(z3::implies(zx == 0 && zy > 0, th == pi / 2));
-      solver_add(z3::implies(zx == 0 && zy < 0, th == -pi / 2));
+      out.push_back(th > -pi && th <= pi);
+      out.push_back(z3::implies(zy > 0, th > 0 && th < pi));
+      out.push_back(z3::implies(zy < 0, th < 0));
+      out.push_back(z3::implies(zy == 0 && zx > 0, th == 0));
+      out.push_back(z3::implies(zy == 0 && zx < 0, th == pi));
+      out.push_back(z3::implies(zx > 0, th > -pi / 2 && th < pi / 2));
+      out.push_back(z3::implies(zx < 0, th > pi / 2 || th < -pi / 2));
+      out.push_back(z3::implies(zx == 0 && zy > 0, th == pi / 2));
+      out.push_back(z3::implies(zx == 0 && zy < 0, th == -pi / 2));
     } break;
     case V_INT:   // n <= x < n+1  (floor)
-      solver_add(z3::to_real(z) <= z_of(vi.args[0]) && z_of(vi.args[0]) < z3::to_real(z) + 1); break;
+      out.push_back(z3::to_real(z) <= z_of(vi.args[0]) && z_of(vi.args[0]) < z3::to_real(z) + 1); break;
     default: break;
   }
 }
-
 
 // split p = c * p0 with p0 monic in the map order (last monomial has coefficient 1)
 static void p_monic(const Poly& p, mpq_class& c, Poly& p0) {
@@ -395,7 +421,6 @@ static SymReal sqrt_const(const mpq_class& c) {
       int v = find_var(key);
       if (v < 0) { v = new_var(V_SQRT, "sqrt(" + rest.get_str() + ")", key);
         VarInfo& vi = E().vars[v]; vi.args.push_back(p_const(mpq_class(rest))); vi.has_sq = true; vi.sq = p_const(mpq_class(rest)); }
-      activate((Var)v);
       acc = p_mul(acc, p_var((Var)v));
     }
   }
@@ -404,19 +429,60 @@ static SymReal sqrt_const(const mpq_class& c) {
     int v = find_var(key);
     if (v < 0) { v = new_var(V_SQRT, "sqrt(" + std::to_string(p) + ")", key);
       VarInfo& vi = E().vars[v]; vi.args.push_back(p_const(mpq_class(p))); vi.has_sq = true; vi.sq = p_const(mpq_class(p)); }
-    activate((Var)v);
     acc = p_mul(acc, p_var((Var)v));
   }
   return mk(std::move(acc));
 }
 
+
+// ---- numeric evaluation of constants that contain radicals (512-bit floats) --------------------
+static bool eval_const(const Poly& p, mpf_class& out, int depth = 0);
+static bool eval_var(Var v, mpf_class& out, int depth) {
+  const VarInfo& vi = E().vars[v];
+  if (depth > 40) return false;
+  mpf_class a(0, 512), b(0, 512);
+  switch (vi.kind) {
+    case V_SQRT: if (!eval_const(vi.args[0], a, depth + 1) || a < 0) return false; out = sqrt(a); return true;
+    case V_ABS:  if (!eval_const(vi.args[0], a, depth + 1)) return false; out = abs(a); return true;
+    case V_QUOT: if (!eval_const(vi.args[0], a, depth + 1) || !eval_const(vi.args[1], b, depth + 1) || b == 0) return false; out = a / b; return true;
+    case V_MAX:  if (!eval_const(vi.args[0], a, depth + 1) || !eval_const(vi.args[1], b, depth + 1)) return false; out = a > b ? a : b; return true;
+    case V_MIN:  if (!eval_const(vi.args[0], a, depth + 1) || !eval_const(vi.args[1], b, depth + 1)) return false; out = a < b ? a : b; return true;
+    default: return false;
+  }
+}
+static bool eval_const(const Poly& p, mpf_class& out, int depth) {
+  mpf_class s(0, 512);
+  for (auto& kv : p) {
+    mpf_class t(kv.second, 512);
+    for (Var v : kv.first) { mpf_class f(0, 512); if (!eval_var(v, f, depth)) return false; t *= f; }
+    s += t;
+  }
+  out = s; return true;
+}
+// sign of a constant polynomial: numeric when clearly non-zero, otherwise decided by a throw-away solver
+static bool const_sign(const Poly& p, int& sign) {
+  mpf_class v(0, 512), scale(0, 512);
+  if (!eval_const(p, v)) return false;
+  for (auto& kv : p) { mpf_class t(kv.second, 512); mpf_class f(0, 512); bool ok = true; for (Var x : kv.first) { if (!eval_var(x, f, 0)) { ok = false; break; } t *= f; } if (ok) scale += abs(t); }
+  if (scale == 0) { sign = 0; return true; }
+  mpf_class rel = abs(v) / scale;
+  mpf_class eps(1, 512); eps >>= 300;          // 2^-300: far above the 512-bit evaluation error, far below any genuine gap
+  if (rel > eps) { sign = v > 0 ? 1 : -1; return true; }
+  // numerically zero: confirm exactly with a query holding only the atoms involved (no path condition)
+  std::set<Var> qv; vars_of(p, qv);
+  z3::expr ne = z_of(p) != 0;
+  z3::check_result r = query(&ne, qv, 20000, false, false, nullptr, true);
+  if (r == z3::unsat) { sign = 0; return true; }
+  if (r == z3::sat) { sign = v > 0 ? 1 : v < 0 ? -1 : 0; if (sign == 0) return false; return true; }
+  return false;
+}
+
 enum Rel { R_LT, R_LE, R_EQ };
 static z3::expr z_rel(const Poly& p, Rel r) { z3::expr e = z_of(p); return r == R_LT ? e < 0 : r == R_LE ? e <= 0 : e == 0; }
-static bool feasible(const z3::expr& c, bool* unknown = nullptr) {
+static bool feasible(const z3::expr& c, std::initializer_list<const Poly*> polys, bool* unknown = nullptr, unsigned timeout_ms = 0) {
   Engine& e = E();
-  e.slv->push(); e.slv->add(c);
-  z3::check_result r = solver_check();
-  e.slv->pop();
+  std::set<Var> qv; for (const Poly* p : polys) vars_of(*p, qv);
+  z3::check_result r = query(&c, qv, timeout_ms ? timeout_ms : e.pol.solver_timeout_ms, false);
   if (r == z3::unknown) { if (unknown) *unknown = true; return true; }
   return r == z3::sat;
 }
@@ -427,16 +493,14 @@ static void record_violation(const std::string& label, const std::string& kind, 
 // divisor != 0: if zero is feasible under the path condition it is reported (policy) and assumed away
 static void guard_nonzero(const z3::expr& zq, const Poly& q0) {
   Engine& e = E();
-  ensure_active_in(q0);
-  e.slv->push(); e.slv->add(zq == 0);
-  z3::check_result r = solver_check();
-  if (r == z3::unknown) { e.slv->pop(); throw Abort{Abort::Unknown, "solver could not decide divisor != 0"}; }
-  if (r == z3::sat) {
-    if (e.pol.div0_is_violation) record_violation("division-by-zero", "fault", "divisor can be zero: " + p_show(q0), &q0, true);
-    if (e.st) e.st->div0_assumed++;
-    e.slv->pop();
-    solver_add(zq != 0);
-  } else e.slv->pop();
+  { int sg; if (p_is_const(q0) && const_sign(q0, sg)) { if (sg == 0) throw Abort{Abort::Fault, "division by zero (constant divisor)"}; return; } }
+  std::set<Var> qv; vars_of(q0, qv);
+  z3::expr c = (zq == 0);
+  z3::check_result r = query(&c, qv, e.pol.aux_timeout_ms, e.pol.div0_is_violation);
+  if (r == z3::unsat) return;
+  if (r == z3::sat && e.pol.div0_is_violation) record_violation("division-by-zero", "fault", "divisor can be zero: " + p_show(q0), &q0, true);
+  if (e.st) { if (r == z3::sat) e.st->div0_assumed++; else e.st->aux_unknown++; }
+  pc_add(zq != 0, {&q0});
 }
 
 static SymReal abs_sym(const Poly& p);
@@ -447,29 +511,28 @@ static SymReal sqrt_sym(const Poly& p) {
   // is p a constant multiple of a square of something we know?  (y^2 rewriting makes m0^2*q -> q*R)
   if (lc < 0) { lc = -lc; p0 = p_neg(p0); }
   // feasibility of a negative radicand
-  ensure_active_in(p0);
   // perfect square of a monomial: sqrt(m^2) = |m|
   if (p0.size() == 1 && !p0.begin()->first.empty()) {
     const Mono& m = p0.begin()->first; bool even = m.size() % 2 == 0; Mono half;
     for (size_t i = 0; even && i < m.size(); i += 2) { if (m[i] != m[i + 1]) even = false; else half.push_back(m[i]); }
     if (even) { Poly hp; hp[half] = 1; SymReal a = abs_sym(hp); SymReal sc = sqrt_const(lc); return mk(p_mul(P(sc), P(a))); }
   }
-  {
-    e.slv->push(); e.slv->add(z_of(p0) < 0);
-    z3::check_result r = solver_check();
-    if (r == z3::unknown) { e.slv->pop(); throw Abort{Abort::Unknown, "solver could not decide sign of a radicand"}; }
-    if (r == z3::sat) {
-      if (e.pol.sqrtneg_is_violation) record_violation("sqrt-of-negative", "fault", "radicand can be negative: " + p_show(p0), &p0, true);
-      if (e.st) e.st->sqrtneg_assumed++;
-      e.slv->pop();
-      solver_add(z_of(p0) >= 0);
-    } else e.slv->pop();
+  int csg;
+  if (p_is_const(p0) && const_sign(p0, csg)) {
+    if (csg < 0) throw Abort{Abort::Fault, "sqrt of a negative constant"};
+  } else if (e.pol.sqrtneg_is_violation) {
+    std::set<Var> qv; vars_of(p0, qv);
+    z3::expr c = z_of(p0) < 0;
+    z3::check_result r = query(&c, qv, e.pol.aux_timeout_ms, true);
+    if (r == z3::sat) { record_violation("sqrt-of-negative", "fault", "radicand can be negative: " + p_show(p0), &p0, true); if (e.st) e.st->sqrtneg_assumed++; }
+    else if (r == z3::unknown && e.st) e.st->aux_unknown++;
   }
+  // the definition y >= 0, y*y = radicand (sent with every query that involves y) implies radicand >= 0:
+  // values with a negative radicand are outside the explored domain (stated assumption)
   std::string key = "SQRT:" + p_key(p0);
   int v = find_var(key);
   if (v < 0) { v = new_var(V_SQRT, "sqrt#" + std::to_string(e.vars.size()), key);
     VarInfo& vi = e.vars[v]; vi.args.push_back(p0); vi.has_sq = true; vi.sq = p0; }
-  activate((Var)v);
   SymReal sc = sqrt_const(lc);
   return mk(p_mul(P(sc), p_var((Var)v)));
 }
@@ -478,7 +541,8 @@ static SymReal abs_sym(const Poly& p) {
   Engine& e = E();
   mpq_class c; if (p_is_rational(p, &c)) return mk(p_const(c < 0 ? mpq_class(-c) : c));
   if (p_is_const(p)) {   // radical constant: decide sign
-    bool neg = !feasible(z_of(p) >= 0);
+    int sg; bool neg;
+    if (const_sign(p, sg)) neg = sg < 0; else { neg = !feasible(z_of(p) >= 0, {&p}); }
     return neg ? mk(p_neg(p)) : mkc(p);
   }
   // single monomial of atoms that are non-negative by construction (sqrt, abs) keeps its sign
@@ -498,7 +562,6 @@ static SymReal abs_sym(const Poly& p) {
   int v = find_var(key);
   if (v < 0) { v = new_var(V_ABS, "abs#" + std::to_string(e.vars.size()), key);
     VarInfo& vi = e.vars[v]; vi.args.push_back(p0); vi.has_sq = true; vi.sq = p_mul(p0, p0); }
-  activate((Var)v);
   return mk(p_scale(p_var((Var)v), lc < 0 ? mpq_class(-lc) : lc));
 }
 
@@ -557,7 +620,6 @@ static SymReal quot_sym(const Poly& num, const Poly& den) {
   int v = find_var(key);
   if (v < 0) { v = new_var(V_QUOT, "quot#" + std::to_string(e.vars.size()), key);
     VarInfo& vi = e.vars[v]; vi.args.push_back(n0); vi.args.push_back(q0); }
-  activate((Var)v);
   return mk(p_scale(p_var((Var)v), nc));
 }
 
@@ -567,11 +629,12 @@ static SymReal minmax_sym(const Poly& a, const Poly& b, bool is_max) {
   if (d.empty()) return mkc(a);
   if (p_is_const(d)) {
     mpq_class c; bool a_ge_b;
-    if (p_is_rational(d, &c)) a_ge_b = c >= 0; else a_ge_b = !feasible(z_of(d) < 0);
+    int sg;
+    if (p_is_rational(d, &c)) a_ge_b = c >= 0; else if (const_sign(d, sg)) a_ge_b = sg >= 0; else { a_ge_b = !feasible(z_of(d) < 0, {&d}); }
     return mkc((a_ge_b == is_max) ? a : b);
   }
   bool u1 = false, u2 = false;
-  bool can_lt = feasible(z_of(d) < 0, &u1), can_gt = feasible(z_of(d) > 0, &u2);
+  bool can_lt = feasible(z_of(d) < 0, {&d}, &u1), can_gt = feasible(z_of(d) > 0, {&d}, &u2);
   if (u1 || u2) throw Abort{Abort::Unknown, "solver could not order min/max operands"};
   if (!can_lt) return mkc(is_max ? a : b);
   if (!can_gt) return mkc(is_max ? b : a);
@@ -579,7 +642,6 @@ static SymReal minmax_sym(const Poly& a, const Poly& b, bool is_max) {
   int v = find_var(key);
   if (v < 0) { v = new_var(is_max ? V_MAX : V_MIN, std::string(is_max ? "max#" : "min#") + std::to_string(e.vars.size()), key);
     VarInfo& vi = e.vars[v]; vi.args.push_back(a); vi.args.push_back(b); }
-  activate((Var)v);
   return mk(p_var((Var)v));
 }
 
@@ -590,7 +652,6 @@ static SymReal uf_sym(const std::string& f, const std::vector<Poly>& args) {
   int v = find_var(key);
   if (v < 0) { v = new_var(V_UF, f + "#" + std::to_string(e.vars.size()), key);
     VarInfo& vi = e.vars[v]; vi.uf = f; vi.args = args; }
-  activate((Var)v);
   return mk(p_var((Var)v));
 }
 
@@ -635,7 +696,6 @@ static SC sincos_generic(const Poly& p) {
     // canonical rewriting: sin^2 -> 1 - cos^2
     e.vars[vs].has_sq = true; Poly one = p_const(1); Poly c2; c2[Mono{(Var)vc, (Var)vc}] = 1; e.vars[vs].sq = p_sub(one, c2);
   }
-  activate((Var)vs); activate((Var)vc);
   SC r; r.s = p_var((Var)vs); r.c = p_var((Var)vc); return r;
 }
 
@@ -694,10 +754,9 @@ static SymReal atan2_sym(const Poly& y, const Poly& x) {
   // canonical key: direction only (scale-free) is not attempted; key on (y,x)
   Poly h2 = p_add(p_mul(x, x), p_mul(y, y));
   bool unk = false;
-  if (feasible(z_of(h2) == 0, &unk)) {
-    if (unk) throw Abort{Abort::Unknown, "solver could not decide atan2 argument != (0,0)"};
+  if (feasible(z_of(h2) == 0, {&h2}, &unk, E().pol.aux_timeout_ms)) {
     // atan2(0,0) = 0 in libm; the symbolic angle is only defined away from the origin
-    solver_add(z_of(h2) != 0);
+    pc_add(z_of(h2) != 0, {&h2});
     if (e.st) e.st->notes.push_back({"assumed", "atan2 arguments not both zero"});
   }
   SymReal h = sqrt_sym(h2);
@@ -705,7 +764,6 @@ static SymReal atan2_sym(const Poly& y, const Poly& x) {
   int v = find_var(key);
   if (v < 0) { v = new_var(V_ANGLE, "ang#" + std::to_string(e.vars.size()), key);
     VarInfo& vi = e.vars[v]; vi.args.push_back(y); vi.args.push_back(x); vi.args.push_back(P(h)); }
-  activate((Var)v);
   return mk(p_var((Var)v));
 }
 
@@ -736,14 +794,14 @@ static bool decide(const Poly& p, Rel rel) {
   Engine& e = E();
   mpq_class c;
   if (p_is_rational(p, &c)) return rel == R_LT ? c < 0 : rel == R_LE ? c <= 0 : c == 0;
-  if (!e.slv) throw Abort{Abort::Unsupported, "symbolic comparison outside a path"};
+  if (p_is_const(p)) { int sg; if (const_sign(p, sg)) return rel == R_LT ? sg < 0 : rel == R_LE ? sg <= 0 : sg == 0; }
+  if (!e.in_path) throw Abort{Abort::Unsupported, "symbolic comparison outside a path"};
   if (++e.branches_this_path > e.pol.max_branches) throw Abort{Abort::Budget, "branch budget of the path exceeded"};
   if (e.st) e.st->branch_points++;
-  ensure_active_in(p);
   z3::expr cnd = z_rel(p, rel);
   bool u1 = false, u2 = false;
-  bool canT = feasible(cnd, &u1);
-  bool canF = feasible(!cnd, &u2);
+  bool canT = feasible(cnd, {&p}, &u1);
+  bool canF = feasible(!cnd, {&p}, &u2);
   if (u1 || u2) throw Abort{Abort::Unknown, "solver returned unknown for a branch condition: " + p_show(p, 200)};
   bool take;
   if (canT && canF) {
@@ -752,7 +810,7 @@ static bool decide(const Poly& p, Rel rel) {
   } else if (canT) take = true;
   else if (canF) take = false;
   else throw Abort{Abort::Infeasible, "path condition became unsatisfiable"};
-  if (canT && canF) solver_add(take ? cnd : !cnd);
+  if (canT && canF) pc_add(take ? cnd : !cnd, {&p});
   return take;
 }
 
@@ -782,26 +840,25 @@ long long to_integer(SymReal x) {
   if (p_is_const(p)) { double d = approx(x); return (long long)d; }
   // fork over feasible truncations: repeatedly ask the solver for a value
   for (int iter = 0; iter < 64; iter++) {
-    z3::check_result r = solver_check();
-    if (r != z3::sat) throw Abort{r == z3::unknown ? Abort::Unknown : Abort::Infeasible, "integer conversion: solver"};
-    z3::model m = e.slv->get_model();
-    z3::expr val = m.eval(z_of(p), true);
+    std::set<Var> qv; vars_of(p, qv);
+    z3::check_result r = query(nullptr, qv, e.pol.solver_timeout_ms, true);
+    if (r != z3::sat || !e.model) throw Abort{r == z3::unknown ? Abort::Unknown : Abort::Infeasible, "integer conversion: solver"};
+    z3::expr val = e.model->eval(z_of(p), true);
     std::string ds = val.get_decimal_string(6);
     double d = atof(ds.c_str());
     long long n = (long long)d;   // trunc
-    // condition trunc(p) == n
     z3::expr zp = z_of(p);
     z3::expr nn = e.ctx.real_val(std::to_string(n).c_str());
     z3::expr cnd = (n > 0) ? (zp >= nn && zp < nn + 1) : (n < 0) ? (zp <= nn && zp > nn - 1) : (zp > -1 && zp < 1);
     bool u = false;
-    bool canF = feasible(!cnd, &u);
+    bool canF = feasible(!cnd, {&p}, &u);
     if (u) throw Abort{Abort::Unknown, "integer conversion: solver unknown"};
     if (!canF) { return n; }
     e.path_symbolic = true;
     if (e.st) e.st->branch_points++;
     int k = fork_point(2, nullptr);
-    if (k == 0) { solver_add(cnd); return n; }
-    solver_add(!cnd);
+    if (k == 0) { pc_add(cnd, {&p}); return n; }
+    pc_add(!cnd, {&p});
   }
   throw Abort{Abort::Budget, "integer conversion has too many feasible values"};
 }
@@ -816,9 +873,9 @@ static void record_violation(const std::string& label, const std::string& kind, 
   Violation v; v.label = label; v.kind = kind; v.detail = detail;
   if (term) v.term = p_show(*term, 400);
   v.choices = e.choices; v.decisions = e.decisions;
-  if (with_model && e.slv) {
+  if (with_model && e.model) {
     try {
-      z3::model m = e.slv->get_model();
+      z3::model& m = *e.model;
       for (size_t i = 0; i < e.vars.size(); i++) {
         const VarInfo& vi = e.vars[i];
         if (vi.kind != V_FREE && vi.kind != V_UNINIT) continue;
@@ -983,22 +1040,22 @@ int choose(int n, const char* what) {
   return k;
 }
 
-void assume_ge0(Real t) { ensure_active_in(P(t)); solver_add(z_of(P(t)) >= 0); }
-void assume_pos(Real t) { ensure_active_in(P(t)); solver_add(z_of(P(t)) > 0); }
-void assume_ne0(Real t) { ensure_active_in(P(t)); solver_add(z_of(P(t)) != 0); }
+void assume_ge0(Real t) { Poly p = P(t); pc_add(z_of(p) >= 0, {&p}); }
+void assume_pos(Real t) { Poly p = P(t); pc_add(z_of(p) > 0, {&p}); }
+void assume_ne0(Real t) { Poly p = P(t); pc_add(z_of(p) != 0, {&p}); }
 void assume_range(Real t, const mpq_class& lo, const mpq_class& hi) {
-  Engine& e = E(); ensure_active_in(P(t)); z3::expr z = z_of(P(t));
-  solver_add(z >= e.ctx.real_val(lo.get_str().c_str()) && z <= e.ctx.real_val(hi.get_str().c_str()));
+  Engine& e = E(); Poly p = P(t); z3::expr z = z_of(p);
+  pc_add(z >= e.ctx.real_val(lo.get_str().c_str()) && z <= e.ctx.real_val(hi.get_str().c_str()), {&p});
 }
 void assume_le(Real a, Real b) { assume_ge0(b - a); }
 void assume_lt(Real a, Real b) { assume_pos(b - a); }
 
-static void dump_query(const std::string& label) {
+static void dump_query(const std::string& label, const std::string& smt) {
   Engine& e = E();
-  if (e.smt_dir.empty() || e.smt_count >= 200) return;
+  if (e.smt_dir.empty() || e.smt_count >= 400) return;
   std::string fn = e.smt_dir + "/q" + std::to_string(e.smt_count++) + ".smt2";
   std::ofstream f(fn);
-  f << "; " << label << "\n(set-logic ALL)\n" << e.slv->to_smt2() << "\n";
+  f << "; " << label << "\n(set-logic ALL)\n" << smt << "\n(check-sat)\n";
   if (e.st) e.st->smt_dumps.push_back(fn);
 }
 
@@ -1010,25 +1067,36 @@ static void check_rel(const Poly& p, int mode, const std::string& label) {
   if (p_is_rational(p, &c)) {
     bool ok = mode == 0 ? c == 0 : mode == 1 ? c >= 0 : c > 0;
     if (e.st) e.st->nf_trivial++;
-    if (!ok) record_violation(label, "assertion", "constant " + c.get_str() + " violates the claim", &p, true);
+    if (!ok) { query(nullptr, std::set<Var>(), e.pol.solver_timeout_ms, true, true); record_violation(label, "assertion", "constant " + c.get_str() + " violates the claim", &p, true); }
     return;
   }
-  ensure_active_in(p);
+  if (p_is_const(p)) {
+    int sg;
+    if (const_sign(p, sg)) {
+      bool ok = mode == 0 ? sg == 0 : mode == 1 ? sg >= 0 : sg > 0;
+      if (e.st) e.st->nf_trivial++;
+      if (!ok) { query(nullptr, std::set<Var>(), e.pol.solver_timeout_ms, true, true); record_violation(label, "assertion", "constant " + p_show(p, 200) + " violates the claim", &p, true); }
+      return;
+    }
+  }
   if (e.st) e.st->nontrivial_sites.insert(label);
   e.path_symbolic = true;
   z3::expr z = z_of(p);
   z3::expr neg = mode == 0 ? z != 0 : mode == 1 ? z < 0 : z <= 0;
-  e.slv->push(); e.slv->add(neg);
-  dump_query(label);
-  z3::check_result r = solver_check();
+  std::set<Var> qv; vars_of(p, qv);
+  std::string smt;
+  z3::check_result r = query(&neg, qv, e.pol.solver_timeout_ms, false, false, e.smt_dir.empty() ? nullptr : &smt);
+  if (!e.smt_dir.empty()) dump_query(label, smt);
   if (r == z3::sat) {
+    // complete model over the whole path condition for the replay
+    z3::check_result rf = query(&neg, qv, e.pol.solver_timeout_ms, true, true);
+    if (rf != z3::sat) query(&neg, qv, e.pol.solver_timeout_ms, true, false);
     record_violation(label, "assertion", mode == 0 ? "term can be non-zero" : "term can be negative", &p, true);
   } else if (r == z3::unsat) {
     if (e.st) e.st->solver_proved++;
   } else {
     if (e.st) e.st->inconclusive.push_back("solver unknown at assertion " + label);
   }
-  e.slv->pop();
 }
 
 void check_zero(Real t, const std::string& label) { Poly p = P(t); check_rel(p, 0, label); }
@@ -1042,7 +1110,7 @@ void check_true(bool cond, const std::string& label, const std::string& detail) 
   if (!cond) {
     // the path condition is satisfiable (every fork was checked): ask for a model of it
     bool have = false;
-    if (e.slv) { z3::check_result r = solver_check(); have = (r == z3::sat); }
+    if (e.in_path) { z3::check_result r = query(nullptr, std::set<Var>(), e.pol.solver_timeout_ms, true, true); have = (r == z3::sat); }
     record_violation(label, "assertion", detail, nullptr, have);
   }
 }
@@ -1076,7 +1144,7 @@ static void write_case(std::ostream& o, const std::string& harness, const Case& 
     << ",\"asserts\":" << s.asserts << ",\"nf_trivial\":" << s.nf_trivial << ",\"solver_proved\":" << s.solver_proved
     << ",\"native_checks\":" << s.native_checks << ",\"faults\":" << s.faults << ",\"abandoned\":" << s.abandoned
     << ",\"exceptions\":" << s.exceptions << ",\"symbolic_paths\":" << s.symbolic_paths << ",\"uninit_reads\":" << s.uninit_reads
-    << ",\"max_symbols\":" << s.max_symbols << ",\"div0_assumed\":" << s.div0_assumed << ",\"sqrtneg_assumed\":" << s.sqrtneg_assumed
+    << ",\"max_symbols\":" << s.max_symbols << ",\"div0_assumed\":" << s.div0_assumed << ",\"sqrtneg_assumed\":" << s.sqrtneg_assumed << ",\"aux_unknown\":" << s.aux_unknown
     << ",\"solver_s\":" << s.solver_s << ",\"wall_s\":" << s.wall_s;
   o << ",\"reached\":{"; { bool f = true; for (auto& kv : s.reached) { if (!f) o << ","; f = false; o << "\"" << jesc(kv.first) << "\":" << kv.second; } } o << "}";
   o << ",\"nontrivial_sites\":" << s.nontrivial_sites.size();
@@ -1111,8 +1179,7 @@ static void explore_case(const Case& c, CaseStats& st, const Policy& base_policy
     e.terms.clear(); e.terms.shrink_to_fit();
     e.decisions.clear(); e.choices.clear(); e.dpos = 0; e.branches_this_path = 0; e.uninit_counter = 0; e.path_symbolic = false;
     e.pol = base_policy;
-    e.slv.reset(new z3::solver(e.ctx));
-    { z3::params p(e.ctx); p.set("timeout", e.pol.solver_timeout_ms); e.slv->set(p); }
+    e.pc.clear(); e.pc_idx.clear(); e.model.reset(); e.in_path = true;
     e.magic.clear(); e.magic_of.clear();
     log << "{\"type\":\"path\",\"name\":\"" << jesc(c.name) << "\",\"prefix\":" << jints(e.prefix) << "}" << std::endl;
     st.paths++;
@@ -1124,7 +1191,7 @@ static void explore_case(const Case& c, CaseStats& st, const Policy& base_policy
         case Abort::Unknown: st.inconclusive.push_back("unknown: " + a.why); break;
         case Abort::Unsupported: st.inconclusive.push_back("unsupported: " + a.why); break;
         case Abort::Infeasible: st.inconclusive.push_back("infeasible: " + a.why); break;
-        case Abort::Fault: st.faults++; { bool have = false; try { have = e.slv->check() == z3::sat; } catch (...) {}
+        case Abort::Fault: st.faults++; { bool have = false; try { have = query(nullptr, std::set<Var>(), e.pol.solver_timeout_ms, true, true) == z3::sat; } catch (...) {}
             try { record_violation("fault", "fault", a.why, nullptr, have); } catch (Abort&) {} } break;
         case Abort::Abandon: st.abandoned++; break;
       }
@@ -1141,7 +1208,7 @@ static void explore_case(const Case& c, CaseStats& st, const Policy& base_policy
     if (st.violations.size() > 40) break;
     if (st.inconclusive.size() > 20) break;
   }
-  e.slv.reset();
+  e.pc.clear(); e.pc_idx.clear(); e.model.reset(); e.in_path = false;
   e.st = nullptr;
   st.wall_s = now_s() - t0;
 }
